@@ -4,6 +4,16 @@ from vlib import core
 WRAPS = ['epoll_wait', 'timerfd_create', 'timerfd_settime', 'syslog', 'openlog']
 
 
+def _srcs(main):
+    return [main, core.repo_src('threadpool', 'threadpool.c'), core.repo_src('threadpool', 'threadpool_msg_sys.c'),
+            core.repo_src('threadpool', 'threadpool_task.c'), core.repo_src('net', 'socket.c'), core.repo_src('net', 'socket_address.c'),
+            core.repo_src('net', 'socket_options.c'), core.repo_src('net', 'utils.c'), core.repo_src('utils', 'sys.c')]
+
+
+def _build_b():
+    return core.compile_c('C16', 'h_c16b', _srcs('harness/C16/h_c16b.c'), flags=['-pthread', '-Wl,' + ','.join('--wrap=' + w for w in WRAPS)])
+
+
 def _build():
     srcs = ['harness/C16/h_c16.c', core.repo_src('threadpool', 'threadpool.c'), core.repo_src('threadpool', 'threadpool_msg_sys.c'),
             core.repo_src('threadpool', 'threadpool_task.c'), core.repo_src('net', 'socket.c'), core.repo_src('net', 'socket_address.c'),
@@ -21,17 +31,21 @@ def run(tier):
                        '(stop the task before returning a non-CONTINUE code unless TP_F_DISPATCH)']
     b = _build()
     core.run_sharded(rep, b, tier, hang_s=120)
+    b2 = _build_b()
+    core.run_sharded(rep, b2, tier, hang_s=120)
     n = int(rep.total('run'))
     rep.extra['states'] = n
     rep.extra['transitions'] = n
     rep.extra['traces_validated_against_impl'] = n
     rep.extra['explanation'] = 'states = (configuration, history) pairs executed on the real loop; every one is a trace of the implementation'
-    rep.finish(core.make_replayer(lambda cfg: b, tier))
+    r1 = core.make_replayer(lambda cfg: b, tier)
+    r2 = core.make_replayer(lambda cfg: b2, tier)
+    rep.finish(lambda target, clause, idx, config: (r2 if target in ('send_task_shortwrite', 'pkt_rcvr_task') else r1)(target, clause, idx, config))
 
 
 def replay(r, tier):
     import subprocess, sys
-    b = _build()
+    b = _build_b() if r['target'] in ('send_task_shortwrite', 'pkt_rcvr_task') else _build()
     p = subprocess.run([b, '--tier', tier, '--only', '%s#%s' % (r['target'], r['index'])], capture_output=True)
     sys.stdout.write(p.stdout.decode('utf-8', 'replace'))
     return 1 if b'VIOL\t' in p.stdout else 0
